@@ -4,8 +4,8 @@
      camel s | upfirst s | lowfirst s | ident s
      const <tlname> | file <tlname> | global <tlname>
      struct f1:k f2:k ...            -> ok F1,F2 | A1,A2   k = n (no accessors) b (bit) f (full)
-     oblig_consts n... | oblig_files n... | oblig_globals n... | oblig_fields <isfn 0|1> f:k ...
-     lists                           -> struct_methods | function_methods | helper_idents *)
+     oblig_consts n... | oblig_files n... | oblig_globals n... | oblig_fields <m1,m2,..|-> f:k ...
+     lists                           -> struct_methods | function_methods | helper_idents | always | closed *)
 open Conv
 open BuildModel
 
@@ -54,8 +54,11 @@ let run = function
   | "oblig_consts" :: ns -> "ok " ^ b2s (consts_ok (List.map tlname_of_string ns))
   | "oblig_files" :: ns -> "ok " ^ b2s (files_ok (List.map tlname_of_string ns))
   | "oblig_globals" :: ns -> "ok " ^ b2s (globals_ok (List.map tlname_of_string ns))
-  | "oblig_fields" :: isfn :: fs -> "ok " ^ b2s (fields_ok (isfn = "1") (List.map field_of_string fs))
+  | "oblig_fields" :: ms :: fs ->
+      let ms = if ms = "-" then [] else List.map str_of_string (String.split_on_char ',' ms) in
+      "ok " ^ b2s (fields_ok ms (List.map field_of_string fs))
   | ["lists"] -> "ok " ^ names struct_methods ^ " | " ^ names function_methods ^ " | " ^ names helper_idents
+                 ^ " | " ^ names struct_methods_always ^ " | " ^ names struct_methods_closed
   | l -> "driver-error unknown op " ^ String.concat " " l
 
 let () = each_line run
